@@ -21,6 +21,18 @@ and an optional row filter below the operation (empties partitions while the
 divisions stay known).  NaN runs are generated so that they cross partition
 boundaries.
 
+Family "regular" (regularly sampled data): DatetimeIndex of frequency 1s / 500ms / 1min / 1D, time-offset
+windows that are even and odd multiples (1..8) of the sampling period, ``center`` True/False, ``min_periods``,
+every rolling aggregation (sum, count, mean, max, min, std, var, median, quantile, apply raw/Series), partition
+boundaries anywhere (regular sampling puts a row exactly w/2 and exactly w away from every partition's first /
+last row whenever w/2 resp. w is a multiple of the period) -- through ``ddf.rolling`` and, with
+``closed in {right, left, both, neither}``, through ``map_overlap`` with timedelta ``before``/``after`` around
+``x.rolling(w, center=, closed=, min_periods=)``.  A seed-independent grid (1 s data, windows of 2..6 periods x
+center x min_periods x all aggregations x two row compositions; map_overlap: 2..4 periods x center x closed x
+sum/count/max) comes first, then seeded random cases.  Input feature ``row-exactly-at-window-edge``: some row
+of another partition lies exactly at the far edge of the window of a partition's last / first row (centered:
+last + w/2 or first - w/2, trailing: first - w).
+
 Outcomes: pandas raising -> rejected; dask raising ``NotImplementedError`` (the
 documented "Partition size is less than overlapping window size" error of
 ``_combined_parts`` when an int window/period exceeds a neighbouring partition)
@@ -35,6 +47,9 @@ all-nan-partition, nan-run-crosses-boundary; cum* with skipna=False: empty-parti
 nan-before-last-partition; others: empty-partition), else ``any-partitioning``.  dtype differences:
 ``<family>:<frame[float+int]|series[int]|...>:dtype``.  Exceptions: ``<family>[:code-path parameters]:
 <ExcType@file:function>``.  cumsum/cumprod and cummin/cummax and ffill/bfill are one family each (same code).
+Time windows whose inputs have the feature ``row-exactly-at-window-edge`` (and no empty partition):
+``<family>:<parameter features>:row-exactly-at-window-edge:<kind>`` -- which rows travel between partitions
+does not depend on the aggregation or the target's shape, so neither is in the label.
 
 Calibration
 -----------
@@ -44,6 +59,14 @@ Calibration
   one-row overlap cannot carry a value across a whole partition: a documented guard outside the statement, no
   finding.  The complete sub-space uses ``bfill(limit=2)`` in place of the bare ``bfill``.
 * pandas has no ``closed=`` in dask's ``Rolling`` signature -> not generated; ``win_type`` not generated.
+  (``ddf.rolling(w, closed=...)`` is a TypeError in this tree.)  ``closed`` is exercised where dask does accept
+  it: inside the function given to ``map_overlap`` with timedelta ``before``/``after`` (family "regular").
+* map_overlap with timedelta overlaps selects ``index > first - before`` and ``index < last + after`` (both
+  strict; not documented either way).  The generator therefore passes the smallest overlaps into which the
+  window fits under that reading: window reach, plus 1 ns on a side where the window edge is closed
+  (``closed`` left/both on the leading side; right/both on the trailing side of a centered window), optionally
+  plus one sampling period.  Demanding the edge row with ``before == reach`` would be stricter than anything
+  dask documents.
 * false alarm corrected: the shared ``frames._classify`` calls a per-column value difference "index" because
   pandas prints ``[index]: [...]`` in the message -> ``_kind`` maps those to ``values``.
 * false alarm corrected: dtype is not demanded of EMPTY results (``shift/diff`` of zero rows keeps int64 in
@@ -72,26 +95,46 @@ RULE = ("case = (frame seed, rows, index kind, NaN density, partitioning descrip
         "8-row frame (fixed NaN pattern) x {rolling(3).sum, cumsum, cummax, shift(1), shift(-2), diff, ffill(limit=1), "
         "bfill(limit=2)}; then a seed-independent grid for the cumulative family (2 fixed frames x 17 partitionings incl. empty "
         "partitions x 6 Series/DataFrame targets x cumsum/cumprod/cummin/cummax x skipna), then seeded random "
-        "cases; non-trivial = >= 2 partitions on a non-empty frame; distinct = distinct case descriptions")
+        "cases; family 'regular': regularly sampled DatetimeIndex (1s/500ms/1min/1D), time windows = 1..8 sampling "
+        "periods, center, min_periods, every rolling aggregation, and map_overlap(timedelta before/after) around "
+        "rolling(closed=right/left/both/neither) -- a seed-independent grid, then seeded random cases; "
+        "non-trivial = >= 2 partitions on a non-empty frame; distinct = distinct case descriptions")
 ASSUMPTIONS = [
     "pandas on the unpartitioned frame is the reference",
     "dask.dataframe is imported through the pyarrow import stub (pandas-backed strings); sync scheduler",
 ]
-BUDGET = {"quick": 90, "thorough": 600}
+BUDGET = {"quick": 110, "thorough": 720}
 FLOORS = {
-    "quick": {"evaluations": 2400, "distinct_nontrivial": 1700,
-              "counters": {"compared": 1750, "compared:cum": 900, "compared:rolling": 260, "compared:shift": 120,
-                           "compared:diff": 130, "compared:fill": 200, "compared:map_overlap": 120,
-                           "compared_multi_partition": 1450, "inputs_with_empty_partition": 600,
+    "quick": {"evaluations": 2800, "distinct_nontrivial": 2100,
+              "counters": {"compared": 2300, "compared:cum": 900, "compared:rolling": 550, "compared:shift": 120,
+                           "compared:diff": 130, "compared:fill": 200, "compared:map_overlap": 240,
+                           "compared_multi_partition": 2000, "inputs_with_empty_partition": 600,
                            "inputs_with_all_nan_partition": 650, "inputs_with_nan_run_crosses_boundary": 450,
-                           "inputs_with_single_row_partition": 1200},
+                           "inputs_with_single_row_partition": 1200,
+                           # family "regular" (measured 847..870 / 612..642 / 226..254 / 246..272 / 158..169 / 717..739 /
+                           # 361..381 / 112..141 / 166..190 / 333..346 over the five seeds)
+                           "compared:regular": 385, "regular:rolling": 280, "regular:map_overlap": 100,
+                           "regular_rolling_center_multi_partition": 110, "regular_rolling_center_even_multiple": 72,
+                           "regular_compared_with_row_exactly_at_window_edge": 325,
+                           "regular_rolling_trailing_multi_partition": 165,
+                           "regular_map_overlap_center_multi_partition": 50,
+                           "regular_map_overlap_closed_nondefault": 75, "regular_rolling_min_periods": 150},
+              "sets": {"regular_variants": 120},
               "max_skipped_fraction": 0.35},
-    "thorough": {"evaluations": 14000, "distinct_nontrivial": 8500,
-                 "counters": {"compared": 10000, "compared:cum": 2700, "compared:rolling": 2600, "compared:shift": 900,
-                              "compared:diff": 850, "compared:fill": 1600, "compared:map_overlap": 1300,
-                              "compared_multi_partition": 7800, "inputs_with_empty_partition": 3000,
+    "thorough": {"evaluations": 17500, "distinct_nontrivial": 12000,
+                 "counters": {"compared": 13000, "compared:cum": 2700, "compared:rolling": 5000, "compared:shift": 900,
+                              "compared:diff": 850, "compared:fill": 1600, "compared:map_overlap": 2100,
+                              "compared_multi_partition": 11000, "inputs_with_empty_partition": 3000,
                               "inputs_with_all_nan_partition": 3400, "inputs_with_nan_run_crosses_boundary": 2600,
-                              "inputs_with_single_row_partition": 7000},
+                              "inputs_with_single_row_partition": 7000,
+                              # family "regular" (measured 7115 / 5252 / 1863 / 2415 / 1571 / 5889 / 2832 / 954 / 1391 / 2883)
+                              "compared:regular": 3200, "regular:rolling": 2350, "regular:map_overlap": 840,
+                              "regular_rolling_center_multi_partition": 1080, "regular_rolling_center_even_multiple": 700,
+                              "regular_compared_with_row_exactly_at_window_edge": 2650,
+                              "regular_rolling_trailing_multi_partition": 1270,
+                              "regular_map_overlap_center_multi_partition": 430,
+                              "regular_map_overlap_closed_nondefault": 620, "regular_rolling_min_periods": 1300},
+                 "sets": {"regular_variants": 230},
                  "max_skipped_fraction": 0.35},
 }
 EXHAUSTIVE_SPACE = {
@@ -164,6 +207,8 @@ def cases(tier, seed):
                         yield {"space": "grid", "frame": fr, "target": tgt,
                                "part": {"how": "sizes", "sizes": sizes, "empty_at": empty_at, "via": "delayed"},
                                "op": {"op": "cum", "fn": fn, "skipna": skipna}}
+    yield from _regular_grid(tier)
+    yield from _regular_random(tier, seed)
     n = 2600 if tier == "quick" else 26000
     for _ in range(n):
         nrows = rng.choice((2, 3, 5, 8, 12, 16, 24, 40, rng.randint(1, 40)))
@@ -173,6 +218,83 @@ def cases(tier, seed):
                "part": _rand_part(rng, nrows), "pre": rng.choice((None, None, None, "filter")),
                "target": rng.choice(("frame", "frame", "series-c", "series-a", "series-d", "cols-ac", "cols-c")),
                "op": _rand_op(rng, index, nrows)}
+
+
+# ---- family "regular": regularly sampled datetime indexes, windows that are multiples of the sampling period
+REG_FREQS = {"1s": ("s", 1), "500ms": ("ms", 500), "1min": ("min", 1), "1D": ("D", 1)}
+REG_AGGS = ("sum", "count", "mean", "max", "min", "std", "var", "median", "quantile", "apply-raw", "apply-series")
+REG_CLOSED = ("right", "left", "both", "neither")
+
+
+def _reg_window(freq, mult):
+    unit, k = REG_FREQS[freq]
+    return "%d%s" % (k * mult, unit)
+
+
+def _regular_grid(tier):
+    """seed independent: 1 s data, every window of 2..6 periods x center x min_periods x every rolling aggregation
+    on two row compositions (partitions longer than the window; a single-row partition in between), and
+    map_overlap with timedelta before/after around rolling(closed=...)"""
+    comps = ([10, 10, 10], [6, 1, 9, 14]) if tier == "quick" else ([10, 10, 10], [6, 1, 9, 14], [15, 15], [4, 8, 4, 8, 6])
+    freqs = ("1s",) if tier == "quick" else ("1s", "500ms", "1D")
+    i = 0
+    for freq in freqs:
+        for mult in (2, 3, 4, 5, 6):
+            for center in (True, False):
+                for mp in (None, 2):
+                    for agg in REG_AGGS:
+                        for sizes in comps:
+                            i += 1
+                            yield {"space": "grid", "family": "regular", "freq": freq, "nrows": sum(sizes), "fseed": 4600 + i % 7,
+                                   "nan": 0.25 if i % 3 else 0.0, "part": {"how": "sizes", "sizes": list(sizes), "via": "delayed"},
+                                   "target": ("frame", "series-c", "series-d")[i % 3],
+                                   "op": {"op": "rolling", "window": _reg_window(freq, mult), "mult": mult, "min_periods": mp,
+                                          "center": center, "agg": agg}}
+        for mult in (2, 3, 4):
+            for center in (True, False):
+                for closed in REG_CLOSED:
+                    for agg in ("sum", "count", "max"):
+                        i += 1
+                        yield {"space": "grid", "family": "regular", "freq": freq, "nrows": 30, "fseed": 4600 + i % 7, "nan": 0.25,
+                               "part": {"how": "sizes", "sizes": [10, 10, 10], "via": "delayed"},
+                               "target": ("frame", "series-c")[i % 2],
+                               "op": {"op": "map_overlap", "func": "timewin", "window": _reg_window(freq, mult), "mult": mult,
+                                      "center": center, "closed": closed, "min_periods": 1, "agg": agg, "slack": 0,
+                                      "api": ("method", "function")[i % 2], "meta": False}}
+
+
+def _regular_random(tier, seed):
+    rng = random.Random(seed * 6007 + 4646)
+    n = 520 if tier == "quick" else 5200
+    for _ in range(n):
+        freq = rng.choice(("1s", "1s", "500ms", "1min", "1D"))
+        nrows = rng.choice((12, 16, 20, 24, 30, 40, 48, rng.randint(6, 48)))
+        mult = rng.choice((1, 2, 2, 3, 4, 4, 5, 6, 6, 8))
+        center = rng.random() < 0.55
+        nparts = rng.choice((2, 2, 3, 3, 4, 5))
+        k = rng.choice(("npartitions", "sizes", "sizes", "sizes"))
+        if k == "npartitions":
+            part = {"how": k, "n": nparts}
+        else:
+            # cut points: mostly leaving partitions longer than the window, sometimes anywhere
+            lo = mult + 1 if rng.random() < 0.75 else 1
+            cuts, c = [], 0
+            for _p in range(nparts - 1):
+                c += rng.randint(lo, max(lo, nrows // nparts + 2))
+                if c < nrows:
+                    cuts.append(c)
+            part = {"how": "sizes", "cuts": cuts, "via": rng.choice(("delayed", "delayed", "map", "repartition"))}
+        if rng.random() < 0.65:
+            op = {"op": "rolling", "window": _reg_window(freq, mult), "mult": mult,
+                  "min_periods": rng.choice((None, None, 1, 2, mult)), "center": center, "agg": rng.choice(REG_AGGS)}
+        else:
+            op = {"op": "map_overlap", "func": "timewin", "window": _reg_window(freq, mult), "mult": mult, "center": center,
+                  "closed": rng.choice(REG_CLOSED), "min_periods": rng.choice((1, 1, 2, mult)),
+                  "agg": rng.choice(("sum", "count", "mean", "max", "min", "median")), "slack": rng.choice((0, 0, 1)),
+                  "api": rng.choice(("method", "method", "function")), "meta": rng.random() < 0.3}
+        yield {"family": "regular", "freq": freq, "nrows": nrows, "fseed": rng.randrange(2 ** 31),
+               "nan": rng.choice((0.0, 0.25, 0.5)), "part": part,
+               "target": rng.choice(("frame", "frame", "series-c", "series-a", "series-d", "cols-ac", "cols-c")), "op": op}
 
 
 def _rand_part(rng, n):
@@ -283,6 +405,29 @@ def _rand_frame(case):
     return df
 
 
+def _regular_frame(case):
+    """a, c (NaN runs), d, e on a regularly sampled DatetimeIndex"""
+    import numpy as np
+    import pandas as pd
+
+    r = np.random.default_rng(case["fseed"])
+    n = case["nrows"]
+    a = r.choice(np.array([1, 1, -1, 2, -2, 3], dtype="int64"), n)
+    c = np.round(r.normal(size=n), 2)
+    d = r.integers(-3, 4, n).astype("float64")
+    p = case["nan"]
+    i = 0
+    while i < n and p > 0:
+        if r.random() < p / 2:
+            ln = int(r.geometric(0.4))
+            c[i:i + ln] = np.nan
+            i += ln
+        i += 1
+    df = pd.DataFrame({"a": a, "c": c, "d": d, "e": r.random(n) < 0.6})
+    df.index = pd.date_range("2021-03-01 00:00:00", periods=n, freq=case["freq"], name="ts")
+    return df
+
+
 def _ident(p):
     return p
 
@@ -388,7 +533,7 @@ def _first_minus_last(s):
 
 
 def _mo_func(op):
-    f, b = op["func"], op["b"]
+    f, b = op["func"], op.get("b")
     if f == "rollsum":
         return (lambda x: x.rolling(b + 1, min_periods=1).sum()), b + op["slack"], 0
     if f == "shiftneg":
@@ -402,6 +547,30 @@ def _mo_func(op):
     if f == "timeroll":
         tw = op["tw"]
         return (lambda x: x.rolling(tw, min_periods=1).sum()), tw, 0
+    if f == "timewin":
+        # rolling(<offset>, center=, closed=) inside map_overlap: before/after are the smallest timedeltas into
+        # which the window fits.  dask selects the rows with ``index > first - before`` and ``index < last + after``
+        # (both strict), so a closed window edge needs 1 ns more than the window reach
+        import pandas as pd
+
+        w, center, closed, mp, agg = op["window"], op["center"], op["closed"], op["min_periods"], op["agg"]
+        tw = pd.Timedelta(w)
+        unit = tw / op["mult"]
+        eps = pd.Timedelta(1, "ns")
+        if center:
+            before = tw / 2 + (eps if closed in ("left", "both") else pd.Timedelta(0))
+            after = tw / 2 + (eps if closed in ("right", "both") else pd.Timedelta(0))
+        else:
+            before = tw + (eps if closed in ("left", "both") else pd.Timedelta(0))
+            after = 0
+        if op.get("slack"):
+            before = before + unit
+            after = after + unit if center else 0
+
+        def timewin(x):
+            return getattr(x.rolling(w, center=center, closed=closed, min_periods=mp), agg)()
+
+        return timewin, before, after
     raise ValueError(f)
 
 
@@ -415,6 +584,8 @@ def _program(x, op, dask_side):
             return r.apply(_nansum, raw=True)
         if agg == "apply-series":
             return r.apply(_first_minus_last, raw=False)
+        if agg == "quantile":
+            return r.quantile(0.25)
         return getattr(r, agg)()
     if k == "cum":
         return getattr(x, op["fn"])(skipna=op["skipna"])
@@ -485,7 +656,7 @@ def _params(op):
     if k == "fill":
         return "limit=None" if op["limit"] is None else "limit"
     if k == "map_overlap":
-        return "%s&%s" % (op["func"], op.get("api", "method"))
+        return "%s%s&%s" % (op["func"], "&center" if op.get("center") else "", op.get("api", "method"))
     return "periods"
 
 
@@ -521,9 +692,14 @@ def _value_label(op, feats, px, kind):
         order = ("empty-partition", "nan-before-last-partition")
     elif op["op"] in ("cum", "fill"):
         order = ("empty-partition", "all-nan-partition", "nan-run-crosses-boundary")
+    elif (op["op"] == "rolling" and isinstance(op["window"], str)) or (op["op"] == "map_overlap" and op["func"] == "timewin"):
+        order = ("empty-partition", "row-exactly-at-window-edge")
     else:
         order = ("empty-partition",)
     feat = next((f for f in order if f in feats), "any-partitioning")
+    if feat == "row-exactly-at-window-edge":
+        # which rows travel between partitions does not depend on the aggregation or on the target's shape
+        return "%s:%s:%s:%s" % (fam, _params(op), feat, kind)
     tgt = "series" if isinstance(px, pd.Series) else ("one-column-frame" if px.shape[1] == 1 else "frame")
     return "%s%s:%s:%s&%s:%s" % (fam, agg, _params(op), tgt, feat, kind)
 
@@ -584,6 +760,8 @@ def run_case(case, ctx):
         warnings.simplefilter("ignore")
         if case.get("space") == "exhaustive":
             pdf = _fixed_frame()
+        elif case.get("family") == "regular":
+            pdf = _regular_frame(case)
         elif case.get("space") == "grid":
             pdf = _fixed_frame(case["frame"])
         else:
@@ -617,6 +795,8 @@ def run_case(case, ctx):
             ctx.exception(e, prefix="input-partitions")
             return
         feats, lens = _part_features(parts, None)
+        if _window_edge_row(parts, op):
+            feats.append("row-exactly-at-window-edge")
         nparts = len(lens)
         ctx.nontrivial = nparts >= 2 and len(pdf) > 0
         for f in feats:
@@ -646,6 +826,8 @@ def run_case(case, ctx):
         ctx.count("compared:" + op["op"])
         if nparts >= 2:
             ctx.count("compared_multi_partition")
+        if case.get("family") == "regular":
+            _regular_counts(ctx, case, op, feats, nparts)
         # an EMPTY pandas result keeps int64 where any non-empty one becomes float64 (shift/diff/rolling
         # introduce no NaN into zero rows); dask's meta cannot know the length -> dtype not demanded there
         m = frames.compare(got, expected, ordered=True, rtol=1e-9, check_dtype=len(expected) > 0)
@@ -660,6 +842,63 @@ def run_case(case, ctx):
             ctx.violation(_value_label(op, feats, px, _kind(m)), m[1],
                           got=_show(got), expected=_show(expected), **detail)
         ctx.sample = {"op": op, "partition_sizes": lens[:12], "features": feats}
+
+
+def _window_edge_row(parts, op):
+    """time windows: is there a row exactly at the far edge of the window of a partition's first / last row, in
+    another partition?  (centered: last + w/2 or first - w/2; trailing: first - w)"""
+    import pandas as pd
+
+    if op["op"] == "rolling" and isinstance(op.get("window"), str):
+        w, center = op["window"], op["center"]
+    elif op["op"] == "map_overlap" and op.get("func") == "timewin":
+        w, center = op["window"], op["center"]
+    else:
+        return False
+    try:
+        tw = pd.Timedelta(w)
+    except ValueError:
+        return False
+    ne = [p for p in parts if len(p)]
+    if len(ne) < 2 or not isinstance(ne[0].index, pd.DatetimeIndex):
+        return False
+    for i in range(len(ne)):
+        first, last = ne[i].index.min(), ne[i].index.max()
+        earlier = [q.index for q in ne[:i]]
+        later = [q.index for q in ne[i + 1:]]
+        if center:
+            if any((last + tw / 2) in ix for ix in later) or any((first - tw / 2) in ix for ix in earlier):
+                return True
+        elif any((first - tw) in ix for ix in earlier):
+            return True
+    return False
+
+
+def _regular_counts(ctx, case, op, feats, nparts):
+    ctx.count("compared:regular")
+    ctx.count("regular:" + op["op"])
+    ctx.op("regular-freq:" + case["freq"])
+    multi = nparts >= 2
+    even = op["mult"] % 2 == 0
+    if op["op"] == "rolling":
+        ctx.op("regular-agg:" + op["agg"])
+        if multi and op["center"]:
+            ctx.count("regular_rolling_center_multi_partition")
+            if even:
+                ctx.count("regular_rolling_center_even_multiple")
+        if multi and not op["center"]:
+            ctx.count("regular_rolling_trailing_multi_partition")
+        if op["min_periods"] is not None:
+            ctx.count("regular_rolling_min_periods")
+    else:
+        ctx.op("regular-closed:%s" % op["closed"])
+        if multi and op["center"]:
+            ctx.count("regular_map_overlap_center_multi_partition")
+        if multi and op["closed"] in ("left", "both", "neither"):
+            ctx.count("regular_map_overlap_closed_nondefault")
+    if multi and "row-exactly-at-window-edge" in feats:
+        ctx.count("regular_compared_with_row_exactly_at_window_edge")
+    ctx.distinct("regular_variants", [case["freq"], op["op"], op["center"], even, op.get("closed"), op["agg"]])
 
 
 def _show(x):
